@@ -10,8 +10,10 @@ from .alg import Poly
 
 
 class DegreeAnalysis(object):
-    def __init__(self, A, base_degree, admitted_guard=None):
+    def __init__(self, A, base_degree, admitted_guard=None, dim=2):
         self.A = A
+        self.dim = dim                       # 2: (energy, area); 3: (energy, area, step-extensivity)
+        self.Z = tuple(Fraction(0) for _ in range(dim))
         self.base = base_degree              # fn(atom) -> (e, a) or None (unknown)
         self.admitted = admitted_guard or (lambda atom, poly: False)
         self.cache = {}
@@ -43,17 +45,16 @@ class DegreeAnalysis(object):
         return None
 
     def mono(self, mono):
-        e = Fraction(0)
-        a = Fraction(0)
+        acc = [Fraction(0)] * self.dim
         for aid, pw in mono:
             d = self.atom(self.A.atoms[aid])
             if d is None:
                 return None
             if d == "zero":
-                return (Fraction(0), Fraction(0))
-            e += d[0] * pw
-            a += d[1] * pw
-        return (e, a)
+                return self.Z
+            for i in range(self.dim):
+                acc[i] += d[i] * pw
+        return tuple(acc)
 
     def atom(self, at):
         r = self.cache.get(at.id, "?")
@@ -66,7 +67,7 @@ class DegreeAnalysis(object):
 
     def _atom(self, at):
         k = at.kind
-        Z = (Fraction(0), Fraction(0))
+        Z = self.Z
         if k in ("term", "elt"):
             d = self.base(at)
             if d is None:
@@ -96,6 +97,9 @@ class DegreeAnalysis(object):
                 return Z
             if d is not None and d[0] == 0:
                 self.intensive_sums.append(at)
+            if d is not None and self.dim >= 3:
+                # summing over the steps removes one power of the step length
+                d = d[:2] + (d[2] - 1,) + d[3:]
             return d
         if k == "lmatch":
             d = self.poly(at.parts[0])
